@@ -549,6 +549,15 @@ def classify_handler(repo: Repo, ci: ClassInfo, cid: str, fn: ast.FunctionDef) -
             and norm(real[0].value.func) in ("unpack", "struct.unpack") and isinstance(real[0].targets[0], ast.Tuple) \
             and all(isinstance(e, ast.Name) for e in real[0].targets[0].elts):
         rest = real[1:]
+        names = [e.id for e in real[0].targets[0].elts]
+        # (a, b) = unpack(F, data); self.object.x = a; self.object.y = b    — plain moves: the same as unpacking into the attributes
+        if rest and len(rest) == len(names) and all(isinstance(s, ast.Assign) and len(s.targets) == 1 and isinstance(s.value, ast.Name) for s in rest) \
+                and [s.value.id for s in rest] == names and all(_target_name(s.targets[0]) for s in rest) and norm(real[0].value.args[1]) == data:
+            row.shape = "unpack"
+            row.fmt = parse_fmt(repo, ci, real[0].value.args[0])
+            row.targets = [_target_name(s.targets[0]) for s in rest]
+            row.tuple_target = True
+            return row
         if rest and all(isinstance(s, ast.Assign) for s in rest):
             row.shape = "packed"
             row.fmt = parse_fmt(repo, ci, real[0].value.args[0])
